@@ -305,8 +305,14 @@ def run(check, an: Analysis):
         'PutQueue', ast.Constant(None))) == 'SortedQueue', pr.module.relpath,
         'priority resources queue requests in a SortedQueue')
     sq_init = an.method(SORTEDQUEUE, '__init__')
-    keys = [n for n in ast.walk(sq_init.node) if isinstance(n, ast.Lambda)]
-    ok = len(keys) == 1 and ast.unparse(keys[0].body).endswith('.key')
+    # the key function handed to the sorted list: `lambda r: r.key` or a plain function
+    # that returns `.key` of its argument
+    ok, n_keys = True, 0
+    for node in ast.walk(sq_init.node):
+        if isinstance(node, ast.keyword) and node.arg == 'key':
+            n_keys += 1
+            ok &= _key_attribute(an, sq_init, node.value) == 'key'
+    ok = ok and n_keys == 1
     check.instance('Q', 'SortedQueue:key', ok, where_fn(sq_init),
                    'the queue is ordered by the request\'s key')
     sq_append = an.callee(SORTEDQUEUE, 'append')
@@ -322,8 +328,15 @@ def run(check, an: Analysis):
     preq = an.method(PRIOREQUEST, '__init__')
     keydef = [n for n in ast.walk(preq.node) if isinstance(n, ast.Assign)
               and ast.unparse(n.targets[0]) == 'self.key']
-    ok = len(keydef) == 1 and isinstance(keydef[0].value, ast.Tuple) and \
-        [ast.unparse(e) for e in keydef[0].value.elts[:2]] == ['self.priority', 'self.time']
+    stored = set()
+    for path in an.paths(an.callee(PRIOREQUEST, '__init__')):
+        for index, event in enumerate(path.events):
+            if event.kind == 'store' and event.get('path') == 'self.key' and \
+                    event.depth == 0 and event.data.get('value') is not None:
+                value = rules.value_expr(path, index, event['value'])
+                stored.add(tuple(ast.unparse(e) for e in value.elts[:2])
+                           if isinstance(value, ast.Tuple) else ('?',))
+    ok = len(keydef) == 1 and stored == {('self.priority', 'self.time')}
     order = [ast.unparse(s.targets[0]) for s in preq.node.body if isinstance(s, ast.Assign)]
     super_last = ast.unparse(preq.node.body[-1]).startswith('super(')
     check.instance('Q', 'PriorityRequest.key', ok and super_last and
@@ -538,12 +551,8 @@ def _serves_prefix(an: Analysis, callee: Callee, queue: str, do: str):
         if not counted:
             upper = rules.value_expr(path, index, upper)
         loops = _queue_iterations(path, queue)
-        if isinstance(upper, ast.Call) and ast.unparse(upper.func) == 'len' and \
-                len(upper.args) == 1:
-            inner = upper.args[0]
-            if isinstance(inner, ast.Call) and ast.unparse(inner.func) in ('list', 'tuple') \
-                    and len(inner.args) == 1:
-                inner = inner.args[0]
+        inner = _counted(upper)
+        if inner is not None:
             good = isinstance(inner, ast.Call) and \
                 ast.unparse(inner.func).split('.')[-1] == 'takewhile' and \
                 [ast.unparse(a) for a in inner.args] == ['self.%s' % do, 'self.%s' % queue]
@@ -587,6 +596,48 @@ def _serves_prefix(an: Analysis, callee: Callee, queue: str, do: str):
             return False, 'counting loop', ': the counter changes outside the loop'
         forms.add('counting loop')
     return len(forms) == 1, '/'.join(sorted(forms)), ''
+
+
+def _key_attribute(an: Analysis, fn, expr):
+    """the attribute ``a`` when ``expr`` is a one-argument function returning ``<arg>.a``"""
+    if isinstance(expr, ast.Lambda) and len(expr.args.args) == 1:
+        param, body = expr.args.args[0].arg, expr.body
+    elif isinstance(expr, (ast.Name, ast.Attribute)):
+        binding = an.p.resolve_dotted(fn.module, expr)
+        target = an.p.functions.get(binding[1]) if binding and binding[0] == 'func' else None
+        if target is None or target.kind != 'sync' or len(target.node.args.args) != 1:
+            return None
+        stmts = [st for st in target.node.body
+                 if not (isinstance(st, ast.Expr) and isinstance(st.value, ast.Constant))]
+        if len(stmts) != 1 or not isinstance(stmts[0], ast.Return):
+            return None
+        param, body = target.node.args.args[0].arg, stmts[0].value
+    else:
+        return None
+    if isinstance(body, ast.Attribute) and isinstance(body.value, ast.Name) and \
+            body.value.id == param:
+        return body.attr
+    return None
+
+
+def _counted(expr):
+    """X for ``len(X)``, ``len(list(X))``, ``len(tuple(X))`` and ``sum(1 for _ in X)``: the
+    number of elements X produces; None for anything else"""
+    if isinstance(expr, ast.Call) and isinstance(expr.func, ast.Name) and \
+            len(expr.args) == 1 and not expr.keywords:
+        if expr.func.id == 'len':
+            inner = expr.args[0]
+            if isinstance(inner, ast.Call) and ast.unparse(inner.func) in ('list', 'tuple') \
+                    and len(inner.args) == 1 and not inner.keywords:
+                inner = inner.args[0]
+            return inner
+        gen = expr.args[0]
+        if expr.func.id == 'sum' and isinstance(gen, ast.GeneratorExp) and \
+                isinstance(gen.elt, ast.Constant) and gen.elt.value == 1 and \
+                type(gen.elt.value) is int and len(gen.generators) == 1 and \
+                not gen.generators[0].ifs and not gen.generators[0].is_async:
+            return gen.generators[0].iter
+    return None
 
 
 def _serves_by_scan(an: Analysis, callee: Callee, queue: str, do: str):
